@@ -18,8 +18,22 @@ let parse_packet (t : string list) : packet =
         p_drop = (if int_of_string dropid < 0 then None else Some (DUser (zi dropid))) }
   | _ -> failwith ("bad packet: " ^ String.concat " " t)
 
-let parse_uop (t : string list) : uop =
+let rec split_colon (t : string list) (acc : string list) : string list * string list =
   match t with
+  | [] -> (List.rev acc, [])
+  | ":" :: r -> (List.rev acc, r)
+  | x :: r -> split_colon r (x :: acc)
+
+let rec pairs_bufs (t : string list) : z list list =
+  match t with
+  | seed :: len :: r -> pat (zi seed) (zi len) :: pairs_bufs r
+  | _ -> []
+
+let b1 s = (s = "1")
+
+let parse_uop (t : string list) : uop =
+  let (hd, tl) = split_colon t [] in
+  match hd with
   | ["post"; h] -> UPost (zi h)
   | ["expires_at"; i; e] -> UExpiresAt (zi i, zi e)
   | ["expires_after"; i; d] -> UExpiresAfter (zi i, zi d)
@@ -27,7 +41,43 @@ let parse_uop (t : string list) : uop =
   | ["cancel"; i] -> UCancel (zi i)
   | ["destroy"; i] -> UDestroy (zi i)
   | ["stop"] -> UStop
-  | "inject" :: rest -> UInject (parse_packet rest)
+  | "inject" :: _ -> UInject (parse_packet (List.tl t))
+  | ["udp_new"; s; n] -> UUdpNew (zi s, zi n)
+  | ["udp_open"; s; v4] -> UUdpOpen (zi s, b1 v4)
+  | ["udp_bind"; s; f; a; p] -> UUdpBind (zi s, mk_ep f a p)
+  | ["udp_close"; s] -> UUdpClose (zi s)
+  | ["udp_cancel"; s] -> UUdpCancel (zi s)
+  | ["udp_destroy"; s] -> UUdpDestroy (zi s)
+  | ["udp_send"; s; f; a; p] -> UUdpSendTo (zi s, pairs_bufs tl, mk_ep f a p)
+  | ["udp_recvfrom"; s] -> UUdpRecvFrom (zi s, List.map zi tl)
+  | ["udp_arecv"; s; want; h] -> UUdpAsyncRecv (zi s, List.map zi tl, b1 want, zi h)
+  | ["udp_wait"; s; h] -> UUdpWaitRead (zi s, zi h)
+  | ["udp_df"; s; b] -> UUdpSetDF (zi s, b1 b)
+  | ["udp_lep"; s] -> UUdpLocalEp (zi s)
+  | ["tcp_new"; s; n] -> UTcpNew (zi s, zi n)
+  | ["acc_new"; s; n] -> UAccNew (zi s, zi n)
+  | ["tcp_open"; s; v4] -> UTcpOpen (zi s, b1 v4)
+  | ["tcp_bind"; s; f; a; p] -> UTcpBind (zi s, mk_ep f a p)
+  | ["tcp_close"; s] -> UTcpClose (zi s)
+  | ["tcp_cancel"; s] -> UTcpCancel (zi s)
+  | ["tcp_destroy"; s] -> UTcpDestroy (zi s)
+  | ["tcp_connect"; s; f; a; p; h] -> UTcpConnect (zi s, mk_ep f a p, zi h)
+  | ["tcp_write"; s; h] -> UTcpWrite (zi s, pairs_bufs tl, zi h)
+  | ["tcp_read"; s; h] -> UTcpRead (zi s, List.map zi tl, zi h)
+  | ["tcp_readsome"; s] -> UTcpReadSome (zi s, List.map zi tl)
+  | ["tcp_wait"; s; h] -> UTcpWaitRead (zi s, zi h)
+  | ["tcp_avail"; s] -> UTcpAvailable (zi s)
+  | ["tcp_lep"; s] -> UTcpLocalEp (zi s)
+  | ["tcp_rep"; s] -> UTcpRemoteEp (zi s)
+  | ["listen"; s; n] -> UAccListen (zi s, zi n)
+  | ["accept"; a; peer; want; h] -> UAccAccept (zi a, zi peer, b1 want, zi h)
+  | ["accept2"; a; dst; h] -> UAccAccept2 (zi a, zi dst, zi h)
+  | ["acc_close0"; a] -> UAccClose0 (zi a)
+  | ["rslv_new"; r; n] -> URslvNew (zi r, zi n)
+  | ["resolve"; r; "lit"; f; a; port; h] -> UResolve (zi r, RLit (mk_addr f a), zi port, zi h)
+  | ["resolve"; r; "host"; id; port; h] -> UResolve (zi r, RHost (zi id), zi port, zi h)
+  | ["rslv_cancel"; r] -> URslvCancel (zi r)
+  | ["pcap_on"] -> UPcapOn
   | _ -> failwith ("bad op: " ^ String.concat " " t)
 
 let parse_sink (t : string list) : z * sink =
@@ -38,22 +88,33 @@ let parse_sink (t : string list) : z * sink =
   | i :: "lossy" :: vs -> (zi i, SLossy (List.map zi vs))
   | _ -> failwith ("bad sink: " ^ String.concat " " t)
 
+let rec addr_list (t : string list) : addr list =
+  match t with f :: a :: r -> mk_addr f a :: addr_list r | _ -> []
+
 let parse_script (lines : string list list) : script =
   let main = ref [] in
-  let hs = ref [] in
-  let sinks = ref [] in
+  let w = ref net0 in
   List.iter (fun t ->
-      match t with
-      | "S" :: rest -> let (i, s) = parse_sink rest in sinks := mset !sinks i s
+      let (hd, tl) = split_colon t [] in
+      match hd with
+      | "S" :: rest -> let (i, s) = parse_sink rest in w := { !w with w_sinks = mset !w.w_sinks i s }
+      | "N" :: n :: rest -> w := { !w with w_nodes = mset !w.w_nodes (zi n) (addr_list rest) }
+      | ["IN"; f; a] -> w := { !w with w_in = !w.w_in @ [(mk_addr f a, List.map zi tl)] }
+      | ["OUT"; f; a] -> w := { !w with w_out = !w.w_out @ [(mk_addr f a, List.map zi tl)] }
+      | ["ROUTE"] -> w := { !w with w_route = List.map zi tl }
+      | ["MTU"; m] -> w := { !w with w_mtu = zi m }
+      | ["MTUP"; f1; a1; f2; a2; m] -> w := { !w with w_mtus = !w.w_mtus @ [((mk_addr f1 a1, mk_addr f2 a2), zi m)] }
+      | "HOST" :: id :: lat :: ec :: rest ->
+          w := { !w with w_hosts = mset !w.w_hosts (zi id) { h_lat = zi lat; h_ec = zi ec; h_addrs = addr_list rest } }
       | "M" :: ["run"] -> main := CmdRun :: !main
       | "M" :: ["restart"] -> main := CmdRestart :: !main
-      | "M" :: rest -> main := CmdOps [parse_uop rest] :: !main
-      | "H" :: h :: rest ->
+      | "M" :: _ -> main := CmdOps [parse_uop (List.tl t)] :: !main
+      | "H" :: h :: _ ->
           let k = zi h in
-          let old = mget [] !hs k in
-          hs := mset !hs k (old @ [parse_uop rest])
+          let old = mget [] !w.w_handlers k in
+          w := { !w with w_handlers = mset !w.w_handlers k (old @ [parse_uop (List.tl (List.tl t))]) }
       | _ -> failwith ("bad line: " ^ String.concat " " t)) lines;
-  { sc_sinks = !sinks; sc_handlers = !hs; sc_main = List.rev !main }
+  { sc_net = !w; sc_main = List.rev !main }
 
 let print_vline oc (v : vline) =
   match v with
@@ -72,4 +133,7 @@ let run (v : variant) (ic : in_channel) (oc : out_channel) =
       let s = run_script v fuel fuel p in
       Printf.fprintf oc "BEGIN %s\n" id;
       List.iter (print_vline oc) (svisible s);
+      (match pcap_bytes s with
+       | Some b -> Printf.fprintf oc "F %s\n" (Pdriver.hex_of_bytes b)
+       | None -> ());
       Printf.fprintf oc "END\n")
